@@ -13,6 +13,7 @@ PROPS["C12"] = dict(
     trivial_classes=[0],
     signatures={"1": "icmp program differs from its spec", "2": "udp program differs from its spec", "3": "synack program differs from its spec",
                 "4": "drop-all program accepts a frame", "5": "tcp 4-tuple program differs from its spec",
+                "7": "real AF_PACKET source (on a datagram socketpair): after a history of filter installations the frames Read hands out are not those the LAST requested filter selects",
                 "6.0": "matcher yields a hop for a frame the installed filter rejects: IPv6 hop-by-hop header before ICMPv6", "6.1": "matcher yields a hop for a frame the installed capture filter rejects", "6.4": "the installation of a capture filter (which drains the socket first) discarded a reply of the target that had already been captured, e.g. the SYN-ACK of the SACK handshake (real run, parameter lab kind 12)", "6.3": "the 4-tuple capture filter a TCP run installed on a handle is not for the flow of the probes it writes through that handle (real run, parameter lab kind 12)", "6.2": "the SYN-ACK that establishes the SACK handshake is rejected by the SYN-ACK capture filter"},
     trusted_base=["x/net/bpf assembler and VM (the Coq interpreter is compared with bpf.VM on every case)",
                   "kernel cBPF semantics = x/net/bpf VM semantics (not verified)"],
@@ -81,9 +82,9 @@ PROPS["C18"] = dict(num=18, labs=["doc", "pol"], rule=DOC_RULE + " " + POL_RULE,
                 "18.3": "provider iteration: a provider after the winner was queried / one before it was skipped / the winner's script does not succeed", "18.4": "reverse-DNS fan-out lost or invented an answer", "18.6": "a value was served from the cache although the lifetime it was stored with, counted from the instant it was stored, had run out (e.g. the lifetime restarts on every read)", "18.5": "a cached lookup was re-queried although a stored success for the same key was still within its lifetime (for DNS names: within the lookup's own timeout)"},
     trusted_base=DOC_TRUSTED + ["go-cache Get/Set and cenkalti/backoff Retry are modelled (validated by the correspondence); the process-wide cache is re-created without its real-clock janitor inside the lab"],
     assumptions=["backoff randomisation is switched off in the lab (RandomizationFactor 0) so that retry instants are deterministic"])
-PROPS["C08"] = dict(num=8, labs=["eng", "pol"], rule=ENG_RULE + " One case in five cancels the caller's context at an arbitrary virtual instant. " + POL_RULE,
+PROPS["C08"] = dict(num=8, labs=["eng", "pol", "kern"], rule=ENG_RULE + " One case in five cancels the caller's context at an arbitrary virtual instant. " + POL_RULE + " Kernel lab (as C13; real clock, bound + 2 s of slack): every scenario's elapsed real time, in particular sack / prefer_sack against a firewalled port whose SYNs are dropped, where the bound on the dial is the kernel's connect timeout unless the run sets its own.",
     nontrivial="any case other than an empty script without cancellation", trivial_classes=[0, 1],
-    signatures={"8": "engine run exceeded its computable bound", "8.1": "cancelled run did not return the cancellation error within poll + delay", "8.2": "public-IP lookup exceeded providers x per-checker timeout",
+    signatures={"8.7": "real kernel target (network namespaces, real clock): a run had not returned 2 s after the bound computed from its parameters (e.g. the TCP dial of the SACK attempt to a port that drops every SYN is not limited by the handshake timeout)", "8": "engine run exceeded its computable bound", "8.1": "cancelled run did not return the cancellation error within poll + delay", "8.2": "public-IP lookup exceeded providers x per-checker timeout",
                 "8.3": "reverse-DNS lookup exceeded its timeout / SACK handshake read outlived its 500 ms deadline", "8.4": "a whole request took longer than the bound computed from its parameters and the longest run / probe / lookup", "9": "a valid scripted run returned an error", "10": "engine panicked", "3.1": "out-of-range reply produced a path"},
     trusted_base=ENG_TRUSTED + ["scripted http.RoundTripper honours the request's context exactly like net/http's transport would (oracle: HTTP client and resolver return by the deadline of the context they are given)"],
     assumptions=["net.Dialer returns by the deadline of the context it is given (oracle for the SACK dial); the request-level model takes the durations of the runs, probes and public-IP lookup as inputs (each is bounded by its own theorem)"])
